@@ -30,6 +30,10 @@ Endings == {
   H("truncated_close_reason", <<"ok">>, <<Ok, F(8, 1, <<3, 232, 226, 130>>)>>, <<D(2), Eof>>, <<>>),
   H("rejected",             <<"ok">>, <<Rej>>, <<D(1), Eof>>, <<>>),
   H("connect_failure",      <<"refused">>, <<>>, <<>>, <<>>),
+  \* the application calls close() / send at the terminal event of the previous attempt (nothing was ever sent, or the socket is gone)
+  H("connect_failure_then_close", <<"refused">>, <<>>, <<>>, <<R("connect_fail#0", "close")>>),
+  H("rejected_then_close",  <<"ok">>, <<Rej>>, <<D(1), Eof>>, <<R("rejected#0", "close")>>),
+  H("dropped_then_close_and_send", <<"ok">>, <<Ok, F(1, 1, <<97>>)>>, <<D(2), Eof>>, <<R("disconnected#0", "close"), R("disconnected#0", "send")>>),
   H("protocol_error",       <<"ok">>, <<Ok, F(3, 1, <<>>)>>, <<D(2), Eof>>, <<>>),
   H("invalid_utf8",         <<"ok">>, <<Ok, F(1, 0, <<97>>), F(0, 0, <<255>>)>>, <<D(3), Eof>>, <<>>),
   H("abandoned_break",      <<"ok">>, <<Ok, F(1, 1, <<97>>), F(1, 0, <<226>>)>>, <<D(3), Eof>>, <<R("text#0", "abandon:break")>>),
